@@ -54,6 +54,9 @@ type view struct {
 	raw   []byte
 	text  string // display without the time lines
 	emsg  string
+	// the decoded object itself: every decoded field (wavelengths included) and its own readable form,
+	// which the handler's display does not reach for the constellations it has no time conversion for
+	decoded string
 }
 
 func viewOf(m *handler.Message) view {
@@ -63,11 +66,22 @@ func viewOf(m *handler.Message) view {
 	if strings.Contains(e, "timestamp out of range") || strings.Contains(e, "unknown message type") {
 		e = "" // time-line errors follow the time history by design
 	}
-	return view{c.MessageType, append([]byte{}, c.RawData...), t, e}
+	d := ""
+	switch rd := c.Readable.(type) {
+	case *msm4.Message:
+		d = canonMSM4(rd) + "\n" + rd.String()
+	case *msm7.Message:
+		d = canonMSM7(rd) + "\n" + rd.String()
+	case *type1005.Message:
+		d = rd.String()
+	case *type1006.Message:
+		d = rd.String()
+	}
+	return view{c.MessageType, append([]byte{}, c.RawData...), t, e, d}
 }
 
 func (v view) eq(w view) bool {
-	return v.typ == w.typ && bytes.Equal(v.raw, w.raw) && v.text == w.text && v.emsg == w.emsg
+	return v.typ == w.typ && bytes.Equal(v.raw, w.raw) && v.text == w.text && v.emsg == w.emsg && v.decoded == w.decoded
 }
 
 func init() {
@@ -159,6 +173,17 @@ func init() {
 			"unchanged; a consumer's copy unaffected by another copy being displayed and modified; non-trivial = at least two frames; distinct = distinct op line",
 		Gen: func(c *Ctx, emit func(class, op string)) {
 			r := c.Rng
+			// FIRST in the process: messages of the constellations without a frequency table (SBAS, QZSS,
+			// NavIC), each decoded before and after a GPS message that uses the same signal ids - state kept
+			// at package level by the decoders would show as a difference between the two decodings
+			for _, typ := range []uint64{1104, 1107, 1114, 1117, 1134, 1137} {
+				rare := randSpec(r, typ%10 == 7, "8x8")
+				rare.typ = typ
+				gps := randSpec(r, typ%10 == 7, "8x8")
+				gps.typ = 1074 + (typ%10 - 4)
+				gps.sigs = append([]uint{}, rare.sigs...)
+				emit("rare-constellation-before-and-after-gps", fmt.Sprintf("determ %s %s %s", defaultStart, hx(mkFrame(rare.encode())), hx(mkFrame(gps.encode()))))
+			}
 			for i := 0; i < c.N(120, 2000); i++ {
 				n := 2 + r.Intn(6)
 				var hs []string
